@@ -8,6 +8,8 @@ package metricstorage
 // statement.
 
 import (
+	"encoding/json"
+	"bytes"
 	"context"
 	"fmt"
 	"sort"
@@ -290,8 +292,23 @@ func c16run(hist []c16batch) (sig, what, outcome string) {
 	for i, b := range hist {
 		var text strings.Builder
 		invalid := false
+		// the metrics file is a stream of JSON values: one per line, several on one line and
+		// values spread over several lines (jq's default output) are the same batch
+		layout := (i + len(hist) + len(b.ops)) % 3
 		for _, o := range b.ops {
-			text.WriteString(o.json + "\n")
+			switch layout {
+			case 1:
+				text.WriteString(o.json + " ")
+			case 2:
+				var ind bytes.Buffer
+				if json.Indent(&ind, []byte(o.json), "", "  ") == nil {
+					text.WriteString(ind.String() + "\n")
+				} else {
+					text.WriteString(o.json + "\n")
+				}
+			default:
+				text.WriteString(o.json + "\n")
+			}
 			invalid = invalid || o.invalid
 		}
 		before, _ := c16gather(m)
